@@ -109,10 +109,11 @@ impl<'tcx> Cx<'tcx> {
                     .map(|x| x.to_string())
                     .unwrap_or("null".into())
             ),
-            ty::Closure(d, _) => format!(
-                "{{\"k\":\"closure\",\"name\":{},\"krate\":{}}}",
+            ty::Closure(d, cargs) => format!(
+                "{{\"k\":\"closure\",\"name\":{},\"krate\":{},\"upvars\":{}}}",
                 jstr(&self.tcx.def_path_str(*d)),
-                jstr(&self.krate_of(*d))
+                jstr(&self.krate_of(*d)),
+                cargs.as_closure().upvar_tys().len()
             ),
             ty::FnDef(d, _) => format!(
                 "{{\"k\":\"fndef\",\"name\":{},\"krate\":{},\"s\":{}}}",
